@@ -71,7 +71,14 @@ def run_tv(prop, families, functions, assumptions, design_ref, explanation_extra
     if 'selftest' in res:
       selftests += res['selftest']['n']
       for p in res['selftest']['problems']:
-        out.harness_errors.append('self-test (model vs real SQLite): %r' % (p,))
+        if p and p[0] == 'violation':
+          rep = dict(p[2])
+          rep.update({'property': prop, 'seed': res['seed'], 'family': res.get('family')})
+          out.violation('%s/%s seed %d: %s' % (res.get('family'), p[1], res['seed'],
+                                                'sqlite_error' if rep.get('sqlite_error') else
+                                                'rows (real SQLite vs reference on a concrete database of the encoder self-test)'), rep)
+        else:
+          out.harness_errors.append('self-test (model vs real SQLite): %r' % (p,))
     for r in res['results']:
       total_preds += 1
       st = r['status']
